@@ -3,7 +3,7 @@ import os, re, subprocess, sys
 from vlib import common as C
 from vlib.simlib import SIM_WRAPS
 
-# clean (exit 0 + KNOWN-FINDING line) at seeds 1..5 quick on 2026-09-26 with the 15-scenario catalogue
+# clean (exit 0) at seeds 1..5 quick on 2026-09-26 with the 16-scenario catalogue + observer scripts
 MANIFEST = {
     "category": "proof",
     "text": "PROOF for the helper layer and the send-path skeleton, FAULT ENUMERATION for the catalogue. Proved in Lean for every "
@@ -14,20 +14,33 @@ MANIFEST = {
             "error & freed}: failure_atomic (a failing primitive leaves the PDU and the ledger as they were), no_leak_on_failure, "
             "send_consumes_pdu (released exactly once or owned by exactly one node; COAP_INVALID_MID only with the PDU released), "
             "next_op_succeeds, alloc_count_matches, and ledger_replay / script_ledger_ok (for every script and oracle M's ledger is "
-            "exactly what the verified monitor ledgerOk computes from M's trace). M is tied to the compiled code by running generated "
+            "exactly what the verified monitor ledgerOk computes from M's trace). Also in M and proved for every oracle: Observe "
+            "registration -- coap_pdu_duplicate (no option filter), coap_cache_derive_key_w_ignore (one request), coap_add_observer "
+            "(found / replaced through the cache key / new, payload copy, second key derivation) and coap_delete_observer with the "
+            "server session's reference count: observer_refs_balanced (every script, every oracle: session->ref = number of "
+            "subscriptions, so no failing request leaves a reference without holder or a holder without reference), "
+            "add_observer_spec (NULL => subscriber list, reference count and ledger exactly as before; success => one subscription, "
+            "one reference, exactly its four objects), add_observer_succeeds_with_memory (all-true oracle: a registration whose token "
+            "and options fit succeeds), deleteObserver_spec, pduDuplicate_live. M is tied to the compiled code by running generated "
             "helper scripts under every single failing request index (and sampled pairs) on both and comparing return values, request "
-            "counts, PDU bytes, alloc_size, queues and the allocation trace event by event. NOT proved, enumerated only: the 15 scenarios "
+            "counts, PDU bytes, alloc_size, queues, the session's reference count, the subscriber list, the request kept with a subscription "
+            "and the allocation trace event by event. NOT proved, enumerated only (OBSERVATION of the real code against the property text, no theorem): the 16 scenarios "
             "uri, pdu, request/response, Block1, Block2, observe, set-up/tear-down, OSCORE, 5.08, /.well-known/core of a 17-resource "
             "server (block-wise, with filters), hand-built Block1 upload without Size1 (in and out of order), hand-written Block2 "
-            "server without Size2 (no ETag / ETag / changing ETag), block-wise observe, cache entries with app data, async are run on "
-            "the real code with every single allocation request failing (1476 runs; thorough: every pair, capped at 40000 per scenario = all 120833 at present), "
+            "server without Size2 (no ETag / ETag / changing ETag), block-wise observe, cache entries with app data, async, observer life "
+            "cycle (FETCH registration with payload, re-registration under a new token, second subscription, deregistration by an "
+            "unknown token, resource deleted while observed) are run on "
+            "the real code with every single allocation request failing (about 1570 runs; thorough: every pair, capped at 40000 per scenario), "
             "each followed by a canary exchange on the same contexts, and "
-            "judged by ASan/UBSan, the verified ledger monitor on the REAL allocation trace, LSan, PDU-consumed evidence and the canary; "
+            "judged by ASan/UBSan, the verified ledger monitor on the REAL allocation trace, LSan, PDU-consumed evidence, the canary, "
+            "and SESSION-REFERENCE ACCOUNTING after the canary: every session's reference count equals the number of its holders "
+            "(application, subscriptions, async entries, send-queue nodes) and every server session nothing holds is reclaimed "
+            "once the session timeout has passed in virtual time (a leaked reference is invisible to the ledger: tear-down drops it); "
             "this searches for a failing (scenario, k) and validates nothing beyond what it executes.",
-    "note": "Sixteen libcoap defects found and fixed on the way (0610a0b, adbeebe, ce0a05c, 2d14466, 3099b1b, 86b2de5, 816a9d6, 19e457a, "
-            "5d6f374; with the extended catalogue: a6a88dc cache data pointer UB, 8d39ad0 coap_add_attr, dd57cca Block2 first block "
-            "handed over as complete, 28062c6 Block1 body with missing blocks, f15c102 last_token NULL, 434fe3b cache ignore list, "
-            "222545f cache entry PDU leak), one open finding (OSCORE configuration parser ignores allocation failures). TCP/TLS/WS "
+    "note": "Twenty libcoap defects found and fixed on the way (KNOWN_FINDINGS.txt, fixed: property=C18; the last three: coap_add_observer "
+            "kept a subscription whose FETCH request had lost its body, coap_pdu_duplicate returned a copy without token, "
+            "coap_register_async kept a request that had lost its body); no open "
+            "finding. TCP/TLS/WS "
             "sessions, Q-Block and proxy paths are not in the catalogue. Only requests made "
             "through coap_malloc_type/coap_realloc_type are failed (uthash's malloc exits on OOM; GnuTLS/libc untouched). Trusted: "
             "Lean kernel (+ propext, Classical.choice, Quot.sound), harness + allocator wrap + virtual-time epoll_wait + judge, "
@@ -37,31 +50,43 @@ MANIFEST = {
 LEAN_MODULES = ["CoapVerif.Props.C18"]
 NAMESPACE = "Coap.C18"
 REQUIRED_THEOREMS = ["failure_atomic", "no_leak_on_failure", "send_consumes_pdu", "send_error_keeps_slot", "next_op_succeeds",
-                     "alloc_count_matches", "ledger_replay", "script_ledger_ok", "script_verdict"]
+                     "alloc_count_matches", "ledger_replay", "script_ledger_ok", "script_verdict",
+                     "observer_refs_balanced", "observer_refs_count", "add_observer_spec", "createSub_spec", "deleteObserver_spec",
+                     "pduDuplicate_live", "addObserver_balanced", "add_observer_succeeds_with_memory"]
 RULE = ("(1) helper-layer scripts `ahelp k1 k2 <ops>`: random sequences (4..16 calls) of coap_pdu_init / add_token / add_option "
         "(ascending numbers, lengths on both sides of 12/13, 268/269) / add_data / pdu_resize / pdu_check_resize / delete_pdu / "
         "new_optlist+insert_optlist / add_optlist_pdu / delete_optlist / new_string|str_const|bin_const / delete / coap_send "
-        "(CON and NON, socket write ok or failing) with sizes on both sides of the 256-byte first buffer and of max_size, run "
+        "(CON and NON, socket write ok or failing) / in about a third of the scripts coap_add_observer and coap_delete_observer on "
+        "the server's session with the current PDU as the request (same token again, another token for the same request, after "
+        "more options or a payload, token lengths 0..300) with sizes on both sides of the 256-byte first buffer and of max_size, run "
         "under EVERY single failing request index (and sampled pairs) on the real code and on the model M: return values, "
-        "number of requests, PDU bytes, alloc_size, queues and the allocation trace must be equal; "
+        "number of requests, PDU bytes, alloc_size, queues, session reference count / subscriber tokens / the request kept with "
+        "the first subscription and the allocation trace must be equal (and, against the property itself: reference count = "
+        "number of subscriptions, every subscription under a token a successful call was given); "
         "(2) fault ENUMERATION of the catalogue scenarios (harness/allocfail.c): uri, pdu, rr, b1, b2, obs, setup, osc, h508, "
         "wkc (12 more resources with attributes, GET /.well-known/core unfiltered / rt=temp* / if=core.p / no match, block-wise), "
         "b1raw (five hand-built 512-byte Block1 requests without Size1, in order and in the order 0,2,1,4,3, to a SINGLE_BODY "
         "server), b2raw (libcoap client against a hand-written Block2 server side without Size2: no ETag, ETag, ETag changing "
         "once), obsblk (observe of a 3-block body: registration, 2 notifications, cancel), cache (coap_cache_ignore_options, "
         "derive_key, new_cache_entry with recorded PDU and app data, lookup, expiry, tear-down), async (coap_register_async, "
-        "coap_async_trigger, timer): every single failing request index k (quick and thorough) and pairs (k, k2) (quick: a "
+        "coap_async_trigger, timer; GET and a PUT whose payload the delayed call must still see), obsre (observer life cycle: FETCH registration with payload, the same request under a new "
+        "token, a second subscription, deregistration by a token the server never saw, coap_delete_resource while observed): every single failing request index k (quick and thorough) and pairs (k, k2) (quick: a "
         "seeded sample of 4000, thorough: every pair of a scenario up to 40000 per scenario, i.e. at present all 120833 pairs; a seeded sample beyond), each "
         "followed by a canary exchange, judged by ASan/UBSan, the Lean-verified ledger monitor on the real allocation trace, "
-        "LSan, PDU-consumed evidence, 'a 2.xx body that claims to be complete is the body' and the canary; non-trivial = a run "
+        "LSan, PDU-consumed evidence, 'a 2.xx body that claims to be complete is the body' (obsre: 'a notification is computed "
+        "from the request the subscription was registered with'), the canary, and after the canary: reference count of every "
+        "session = number of its holders, and no server session without holder survives the session timeout; non-trivial = a run "
         "in which at least one request actually failed")
 TRUSTED_BASE = ["Lean 4.33 kernel; axioms allowed: propext, Classical.choice, Quot.sound (audited per theorem each run)",
                 "harness/allocfail.c on sim_core.h (virtual clock, scripted network, epoll_wait in virtual time), the wrapped "
                 "allocator (coap_malloc_type/realloc_type/free_type) that injects the failure and records the real trace, "
                 "harness/allocfail_pipe.py (crash attribution, addr2line), generators, the python judge",
                 "ASan/UBSan/LSan as observers of the compiled C (invalid access, leaks of memory not allocated through coap_malloc_type)",
-                "M (CoapVerif/Model/AllocOracle.lean) is a hand transcription of the helper layer and of the ownership skeleton "
-                "of the send path; checked against the compiled code only on the scripts run",
+                "M (CoapVerif/Model/AllocOracle.lean) is a hand transcription of the helper layer, of the ownership skeleton "
+                "of the send path and of coap_add_observer / coap_delete_observer / coap_pdu_duplicate; checked against the compiled "
+                "code only on the scripts run; SHA-256 of the cache key is abstracted to its input (no collision among the keys of a script)",
+                "the holder count of the reference accounting is computed by the harness from libcoap's own lists (send queue, "
+                "subscribers of every resource, async list) -- the list of who may hold a session reference is read from the source",
                 "T1 extractor extract/repeatable.c (non-repeatable option table used by coap_add_option)"]
 ASSUMPTIONS = ["PROVED only for the helper layer (PDU init/resize/token/option/data, optlist, strings) and the ownership skeleton of "
                "coap_send/coap_send_internal; for the catalogue scenarios beyond it (request/response, Block1, Block2, observe, "
@@ -71,6 +96,10 @@ ASSUMPTIONS = ["PROVED only for the helper layer (PDU init/resize/token/option/d
                "OOM), GnuTLS and libc allocations are not",
                "option model domain: coap_add_option in ascending order, numbers other than Proxy-Uri/Proxy-Scheme (append branch)",
                "send skeleton: UDP client session, ESTABLISHED, block mode off, no OSCORE, no Echo pending",
+               "observer model: one observable resource, one UDP server session, request code not FETCH (payload copied but not part "
+               "of the key), no observe_added / observe_deleted callbacks, COAP_RESOURCE_MAX_SUBSCRIBER = 0; add_observer_spec's ledger "
+               "part is stated for the case that no subscription is replaced (the replaced one is covered by deleteObserver_spec "
+               "and observer_refs_balanced)",
                "compiled Lean definitions agree with the kernel's reading of them"]
 SPEC_DECISIONS = ["D18a 'the next operation with memory available succeeds' is checked by a canary CON GET on the SAME contexts after the "
                   "outstanding exchanges have run their course in virtual time (retransmissions included), on fresh ones when "
@@ -81,7 +110,7 @@ SPEC_DECISIONS = ["D18a 'the next operation with memory available succeeds' is c
 RUN_KW = {"timeout": 1800, "env": {"ASAN_OPTIONS": "detect_leaks=1:abort_on_error=0:exitcode=86:allocator_may_return_null=1:leak_check_at_exit=0"}}
 WRAPS = SIM_WRAPS + ["coap_malloc_type", "coap_realloc_type", "coap_free_type", "epoll_wait"]
 PAIR_CAP = 40000        # thorough: pairs per scenario (every pair below it, a seeded sample above)
-SCENARIOS = ["uri", "pdu", "rr", "b1", "b2", "obs", "setup", "osc", "h508", "wkc", "b1raw", "b2raw", "obsblk", "cache", "async"]
+SCENARIOS = ["uri", "pdu", "rr", "b1", "b2", "obs", "setup", "osc", "h508", "wkc", "b1raw", "b2raw", "obsblk", "cache", "async", "obsre"]
 # visible outcome of every scenario when no request fails (k = 0)
 EXPECT0 = {
     "uri": "split0,u2o1,u2os0,p2o1,q2o1,ins1,olpdu1,path9,query8,str1111,rsz1,uri11,req0,rsp0,nack0,body0/0,put0/0",
@@ -98,7 +127,8 @@ EXPECT0 = {
     "b2raw": "req18,rsp3,c2.05,c2.05,c2.05,nack0,body3/0,put0/0",
     "obsblk": "notify1,notify1,cancel1,notify0,req4,rsp4,c2.05,c2.05,c2.05,c2.05,nack0,body4/0,put0/0",
     "cache": "ign1,ign1,cb1,key11,ent1,pdu313,bykey1,bypdu1,other1,req3,rsp3,c2.01,c2.05,c2.01,nack0,body0/0,put0/0",
-    "async": "pending1,req4,rsp2,c2.05,c2.05,nack0,body0/0,put0/0",
+    "async": "pending1,req6,rsp3,c2.05,c2.05,c2.05,nack0,body0/0,put0/0",
+    "obsre": "subs1,notify1,subs2,notify1,subs1,notify1,delres1,req8,rsp9,c2.05,c2.05,c2.05,c2.05,c2.05,c2.05,c2.05,c2.05,c4.04,nack0,body0/0,put0/0",
 }
 
 
@@ -143,7 +173,19 @@ def gen_script(rng):
         have_pdu = True; bound += 2
     nol = 0
     ol_max = 0
+    # observer scripts (about a third): coap_add_observer / coap_delete_observer on the server's session with the current PDU
+    # as the request -- the same token again (found), another token for the same request (replaced through the cache key),
+    # after more options / a payload (a further subscription; the payload is copied), tokens on both sides of 8/12/13/268/269
+    obs_mode = rng.random() < 0.35
+    obs_toks = [rng.choice([0, 1, 2, 4, 8]), rng.choice([1, 3, 8, 9, 12, 13]), rng.choice([5, 200, 268, 269, 300])]
     for _ in range(n):
+        if obs_mode and rng.random() < 0.4:
+            if rng.random() < 0.7:
+                ops.append("A%d" % rng.choice(obs_toks))
+                bound += 8
+            else:
+                ops.append("B%d" % rng.choice(obs_toks + [7]))
+            continue
         c = rng.random()
         if c < 0.08:
             ops.append("I%d" % rng.choice([0, 8, 64, 255, 256, 257, 300, 1152, 1152, 5000, 70000, 8388858, 8388859]))
@@ -262,7 +304,7 @@ def site_of(impl):
 
 
 def symptoms(c):
-    """what is wrong with a catalogue run, as a dict {class: detail}; classes: crash, ledger, lsan, consumed, canary, body, baseline"""
+    """what is wrong with a catalogue run, as a dict {class: detail}; classes: crash, ledger, lsan, consumed, canary, refs, idle, body, baseline"""
     i = c["impl"] or ""
     w = c["input"].split()
     scn = w[1]
@@ -282,6 +324,12 @@ def symptoms(c):
     if not can.startswith("ok"):
         what["canary"] = ("the canary exchange with memory available failed (%s: 1 no PDU, 2 coap_send refused, 3 request never "
                           "reached the handler, 4 no response, 5 wrong response code)" % can)
+    if f.get("refs", "ok") != "ok":
+        what["refs"] = ("a session's reference count differs from the number of its holders (application, subscriptions, async "
+                        "entries, send-queue nodes) after everything has settled: %s as <S server|C client><index>:<ref>/<holders> "
+                        "(a reference without holder pins the session until the endpoint goes)" % f.get("refs"))
+    if f.get("idle", "0") != "0":
+        what["idle"] = ("%s server session(s) that nothing holds survive the session timeout (never reclaimed as idle)" % f.get("idle"))
     out = f.get("out", "")
     m = re.search(r"body(\d+)/(\d+),put(\d+)/(\d+)", out)
     if m and (int(m.group(2)) or int(m.group(4))):
@@ -304,7 +352,7 @@ def judge_alloc(c):
     return None
 
 
-CMP = ["rc", "n", "pdu", "ol", "str", "q", "T"]
+CMP = ["rc", "n", "pdu", "ol", "str", "q", "obs", "sp", "T"]
 
 
 def judge_help(c):
@@ -319,6 +367,23 @@ def judge_help(c):
         return ("spec", "helper script: the real allocation trace is rejected by the verified monitor ledgerOk: %s" % fi.get("ledger"))
     if fi.get("lsan", "0") != "0":
         return ("spec", "helper script: LeakSanitizer reports a leak")
+    # I-vs-property for the observer ops: every subscription carries a token some successful coap_add_observer was given, and
+    # the session's reference count is the number of subscriptions (nothing else holds the server session in a script)
+    w = c["input"].split()
+    rcs = fi.get("rc", "").split(",")
+    if "obs" in fi and len(rcs) == len(w) - 3:
+        ref, _, toks = fi["obs"].partition("/")
+        toks = [] if toks in ("-", "") else toks.split(",")
+        given = set(op[1:] for op, rc in zip(w[3:], rcs) if op[0] == "A" and rc == "1")
+        lost = [t for t in toks if t not in given]
+        if lost:
+            return ("spec", "helper script under failing request(s) %s (%s): a subscription is registered under a token of length %s "
+                    "that no successful coap_add_observer call was given (the copy of the request lost its token): obs=%s"
+                    % (w[1:3], site_of(i), ",".join(lost), fi["obs"]))
+        if ref != str(len(toks)):
+            return ("spec", "helper script under failing request(s) %s (%s): the server session's reference count is %s with %d "
+                    "subscription(s) and no other holder (a reference without holder pins the session for ever, a holder "
+                    "without reference is a use after free): obs=%s" % (w[1:3], site_of(i), ref, len(toks), fi["obs"]))
     if "unmodelled" in fm.get("rc", ""):
         return ("tie", "the script left M's domain (generator defect): %s" % fm.get("rc"))
     if fm.get("ledger") != "ok":
